@@ -63,6 +63,29 @@ def hall_ok(nports, us, p, tol, subset_clause=True):
     return True
 
 
+def hall_range_ok(nports, us, p, tol, lo, hi, subset_clause=True):
+    """As hall_ok when some (unknown which) micro-ops are scaled by a factor in [lo, hi], lo <= 1 <= hi:
+    sign and support exactly, total within [lo*total, hi*total], every port set carries at least lo
+    times the cycles confined to it."""
+    allowed = set()
+    for c, ix in us:
+        allowed |= set(ix)
+    for q in range(nports):
+        if p[q] < -tol or (q not in allowed and abs(p[q]) > tol):
+            return False
+    total = sum(c for c, _ in us)
+    if not (lo * total - tol <= sum(p) <= hi * total + tol):
+        return False
+    if not subset_clause:
+        return True
+    for mask in range(1, 1 << nports):
+        S = set(i for i in range(nports) if mask >> i & 1)
+        confined = sum(c for c, ix in us if set(ix) <= S)
+        if sum(p[q] for q in S) < lo * confined - tol:
+            return False
+    return True
+
+
 def exact_optimum(nports, all_uops):
     """max over non-empty port subsets S of (cycles confined to S) / |S|  (Hall / LP duality)."""
     best = 0.0
